@@ -795,6 +795,10 @@ func (e *Exec) GenOp(r *rand.Rand, p Profile) []string {
 				kv += fmt.Sprintf(" async=0 astruct=%d", r.Intn(2))
 			}
 		}
+		if pct(r, 40) {
+			// ... and what a new process would find right after that Create
+			return append(sweep("create "+kv, "count", "all"), "snapcheck")
+		}
 		return sweep("create "+kv, "count", "all")
 	case "recreatebad":
 		// re-creation with another extension or other constraints must be refused
